@@ -298,6 +298,33 @@ CHECKS = {
         "out": ["json.Decoder's real buffering policy (the model allows any read length >= 1, a superset)", "limits outside [256, 4096]"],
         "assumptions": [],
     },
+    "C13": {
+        "level_text": "Both roles are the real code: a ClientChannel and a ServerChannel served by Server.handleChannel, joined by the real in-process "
+                      "transport and established through the real handshake, run as symbolic threads with dispatch loops consuming on both sides and 0-1 "
+                      "data envelope in flight in each direction; then the client finishes, or the server finishes, or the server fails the session, with "
+                      "every thread choice at blocking points (and up to P pre-emptions) explored. Verdicts: the terminating call succeeds, both sides reach "
+                      "the matching terminal state (the peer observes the terminal envelope), all inbound streams and receiver-done are closed on both "
+                      "sides, both connections are closed, dispatch loop and serving goroutine return, Finished fires once, and no goroutine is left. "
+                      "Termination through Client.Close and Server.Close is covered by the C19 and C18 runs listed here.",
+        "level_note": "Trusted: SSA->SMT executor, bounded cooperative scheduler (no instruction-level races), z3. Bounds: one session, <= 1 in-flight envelope "
+                      "per direction, buffers {0,1}, P = 0 / 1. Real transports' own goroutines (websocket helpers, TLS) are outside the claim.",
+        "runs": [
+            {"harness": "HarnessC13Teardown", "grid": {"who": [0, 1, 2], "buf": [0, 1]}, "params": {"sched": 1, "tbuf": 1},
+             "reach": ["c13:end-settled"], "threads": True, "tier": "quick"},
+            {"harness": "HarnessC13Teardown", "grid": {"who": [0, 1, 2]}, "params": {"sched": 1, "tbuf": 0, "buf": 1},
+             "reach": ["c13:end-settled"], "threads": True, "tier": "quick"},
+            {"harness": "HarnessC13Teardown", "grid": {"who": [0, 1, 2]}, "params": {"sched": 1, "tbuf": 0, "buf": 0},
+             "reach": ["c13:end-settled"], "threads": True, "tier": "thorough"},
+            {"harness": "HarnessC13Teardown", "grid": {"who": [0, 1, 2], "buf": [0, 1], "tbuf": [0, 1]}, "params": {"sched": 1, "P": 1},
+             "reach": ["c13:end-settled"], "threads": True, "tier": "thorough", "timeout": 7000},
+            {"harness": "HarnessC19Recover", "grid": {"fault": [0, 2]}, "params": {"sched": 1, "spinok": 1, "P": 1}, "unroll": 5,
+             "reach": ["c19:send-after-fault-returned"], "threads": True},
+            {"harness": "HarnessC18StartStop", "params": {"sched": 1, "P": 1, "listeners": 1, "when": 1}, "reach": ["c18:closed"], "threads": True},
+        ],
+        "bounds": {"quick": {"in_flight": 1, "preemptions": 0}, "thorough": {"in_flight": 1, "preemptions": 1}},
+        "out": ["real transports' helper goroutines", "termination racing with more traffic than the bound", "a real goroutine census"],
+        "assumptions": ["both sides keep consuming their inbound streams"],
+    },
     "C14": {
         "level_text": "Server.handleChannel is executed symbolically over the same scripted transport and callback outcomes (every failing client script, "
                       "receive errors, non-session input, Authenticate/Register errors, misconfiguration): when the session never reached established the "
